@@ -9,7 +9,7 @@ FUNCS = ["data:TimePoint.__init__", "data:TimeZone.__init__", "parsers:TimePoint
          "parsers:TimePointParser.parse", "ghost:parse_dump_as_parsed"]
 LEMMAS = ["wiy.range", "opaque.dby.step", "opaque.dby.range"]
 CANARIES = ["canary.week52"]
-EXPLANATION = ("PROVED: (P0) the REAL TimePointParser.parse (get_info, get_date_info, get_time_info, get_time_zone_info, process_time_zone_info, _create_timepoint_from_info, TimePoint.__init__) EXECUTED on every complete date-time form as a piecewise TEXT with symbolic digit fields - 6 date notations x {CCYY, +XCCYY, -XCCYY} x {no time, hh, hhmm, hhmmss, each with comma/point decimals} x both time notations x {no zone, Z, +-hh, +-hhmm / +-hh:mm} = 1962 forms, plus the reduced-precision dates (CCYY-MM, CCYY, CC, CCYYWww, CCYY-Www, signed or not) and four further parser configurations (no expanded digits; basic-only: every basic form accepted, every extended-only spelling refused; default-to-unknown zone: UTC; no assumption: the system's local offset, over a symbolic time module) and the 24 truncated date forms with truncation enabled (-YYMM ... -Www-D: exactly the spelled fields, everything else absent, truncated property recorded; a spelled two- or one-digit year is the year the other fields are validated against, otherwise leap-year lengths / 53 weeks) and the time-only truncated forms Thh, Thhmm(ss), T-mm, T-mmss / T-mm:ss, T--ss with no zone (unknown), Z, +hh, -hhmm / -hh:mm - 3528 cases: the digits of the text end up in exactly the fields the notation says, omitted fields default, the assumed zone applies when none is written, BadInputError exactly for impossible values, and every basic/extended mix is refused; string splitting is decided on the piece structure and each regex.match of the real tables by the lexing lemma (pyvc/textlex.py); parse(text, dump_as_parsed=True) dumped with its own format is the input text again, piece for piece (ghost program parse_dump_as_parsed executing the real parser and dumper; 396 non-decimal forms; the negative-zero spellings -000000 and -00:00 are second spellings of +000000 / +00:00 and are dumped as those); (P1) lexing determinism on the REAL compiled regex tables - for every documented complete date/time/zone form (regular languages written from the property) the first pattern in the real search order that can match covers the whole form, has the right notation key, is anchored and fixed-width and decodes a sample to the expected groups; a basic-only parser matches no extended-only form (177 regular-language obligations, z3); (P2) field assembly - _create_timepoint_from_info and process_time_zone_info executed on SYMBOLIC digit fields: year = +-(10000 X + 100 CC + YY), every field stored as spelled, defaults for omitted fields, Z and signed zones (sign applied to hours and minutes), decimals, BadInputError exactly for impossible fields; the field-level accept/reject decision and field storage of TimePoint.__init__ (C09 contracts) which every notation feeds; memoisation soundness of parser/dumper caches. BOUNDED: decoding of text - the form catalogue (written from the property, not from parser_spec) x boundary/random values x parser configurations: fields, defaults, zone resolution, dump_as_parsed reproduction, basic-only acceptance, no basic/extended mixing, truncated forms.")
+EXPLANATION = ("PROVED: (P0) the REAL TimePointParser.parse (get_info, get_date_info, get_time_info, get_time_zone_info, process_time_zone_info, _create_timepoint_from_info, TimePoint.__init__) EXECUTED on every complete date-time form as a piecewise TEXT with symbolic digit fields - 6 date notations x {CCYY, +XCCYY, -XCCYY} x {no time, hh, hhmm, hhmmss, each with comma/point decimals} x both time notations x {no zone, Z, +-hh, +-hhmm / +-hh:mm} = 1962 forms, plus the reduced-precision dates (CCYY-MM, CCYY, CC, CCYYWww, CCYY-Www, signed or not) and four further parser configurations (no expanded digits; basic-only: every basic form accepted, every extended-only spelling refused; default-to-unknown zone: UTC; no assumption: the system's local offset, over a symbolic time module) and the 24 truncated date forms with truncation enabled (-YYMM ... -Www-D: exactly the spelled fields, everything else absent, truncated property recorded; a spelled two- or one-digit year is the year the other fields are validated against, otherwise leap-year lengths / 53 weeks) and the time-only truncated forms Thh, Thhmm(ss), T-mm, T-mmss / T-mm:ss, T--ss with no zone (unknown), Z, +hh, -hhmm / -hh:mm - 3531 cases: the digits of the text end up in exactly the fields the notation says, omitted fields default, the assumed zone applies when none is written, BadInputError exactly for impossible values, and every basic/extended mix is refused; string splitting is decided on the piece structure and each regex.match of the real tables by the lexing lemma (pyvc/textlex.py); parse(text, dump_as_parsed=True) dumped with its own format is the input text again, piece for piece (ghost program parse_dump_as_parsed executing the real parser and dumper; 396 non-decimal forms; the negative-zero spellings -000000 and -00:00 are second spellings of +000000 / +00:00 and are dumped as those); (P1) lexing determinism on the REAL compiled regex tables - for every documented complete date/time/zone form (regular languages written from the property) the first pattern in the real search order that can match covers the whole form, has the right notation key, is anchored and fixed-width and decodes a sample to the expected groups; a basic-only parser matches no extended-only form (177 regular-language obligations, z3); (P2) field assembly - _create_timepoint_from_info and process_time_zone_info executed on SYMBOLIC digit fields: year = +-(10000 X + 100 CC + YY), every field stored as spelled, defaults for omitted fields, Z and signed zones (sign applied to hours and minutes), decimals, BadInputError exactly for impossible fields; the field-level accept/reject decision and field storage of TimePoint.__init__ (C09 contracts) which every notation feeds; memoisation soundness of parser/dumper caches. BOUNDED: decoding of text - the form catalogue (written from the property, not from parser_spec) x boundary/random values x parser configurations: fields, defaults, zone resolution, dump_as_parsed reproduction, basic-only acceptance, no basic/extended mixing, truncated forms.")
 ASSUMPTIONS = ["truncated date+time combinations and decimal truncated times, expanded digits other than 0/2 and dump_as_parsed of decimal forms: bounded grid only",
                "split lemma of pyvc/textlex.py (prose induction; hypotheses machine-checked)",
                "digit fields are ASCII digits; float('0.'+digits) is digits/10^n (floats as reals)"]
